@@ -132,6 +132,13 @@ func (fr *Frame) callDispatch(in ssa.Instruction, cc *ssa.CallCommon, callee *ss
 	if callee != nil && callee.Blocks != nil && strings.HasPrefix(QualNamePkg(callee), ModPath) && fr.depth < 3 && autoInlinable(callee) {
 		return fr.inline(in, callee, nil, args, closure)
 	}
+	// a context.CancelFunc obtained from package context releases timer resources only
+	if callee == nil && !cc.IsInvoke() {
+		if n, ok := types.Unalias(cc.Value.Type()).(*types.Named); ok && n.Obj().Pkg() != nil && n.Obj().Pkg().Path() == "context" && n.Obj().Name() == "CancelFunc" {
+			vc.Trusted["model: calling a context.CancelFunc changes no program state"] = true
+			return &Val{T: "0", Typ: resT}
+		}
+	}
 	// unknown callee: havoc
 	return fr.unknownCall(in, name, args, resT)
 }
@@ -183,7 +190,7 @@ func autoInlinable(f *ssa.Function) bool {
 func (fr *Frame) unknownCall(in ssa.Instruction, name string, args []*Val, resT types.Type) *Val {
 	vc := fr.vc
 	vc.drop("havoc-call:" + shortType(name))
-	pure := knownPure[name] || strings.HasPrefix(name, "fmt.") || strings.HasPrefix(name, "errors.") || strings.HasPrefix(name, "log/slog.") || strings.HasPrefix(name, "(*log/slog.") || strings.Contains(name, "log/slog.(*Logger)") || strings.Contains(name, "/internal/logging.") || strings.Contains(name, "/internal/recovery.")
+	pure := knownPure[name] || strings.HasPrefix(name, "encoding/hex.") || strings.HasSuffix(name, "/internal/identity.AgentID.ShortString") || strings.HasSuffix(name, "/internal/identity.AgentID.String") || strings.HasPrefix(name, "fmt.") || strings.HasPrefix(name, "errors.") || strings.HasPrefix(name, "log/slog.") || strings.HasPrefix(name, "(*log/slog.") || strings.Contains(name, "log/slog.(*Logger)") || strings.Contains(name, "/internal/logging.") || strings.Contains(name, "/internal/recovery.")
 	if !pure {
 		pre := fr.cur
 		vc.drop("whole-heap-havoc-by:" + shortType(name))
